@@ -101,3 +101,54 @@ Proof.
   destruct H as (H1 & H2 & _ & _ & H5). exact (conj H1 (conj H2 H5)).
 Qed.
 Print Assumptions C06_replace_needs_nonempty_chunks.
+
+(* ---- columns = false: the line rule ---- *)
+From RS Require Import Api.ApiTree Api.ApiCheck Proofs.RStreamPos.
+From RS Require Proofs.CompLinesBridge Proofs.CompLinesConcat Proofs.CompLinesReplace Proofs.CompLinesTree.
+
+(* the chunk-level line rule of the streams (the first mapped non-empty chunk piece of an output
+   line decides the line) IS the byte-level rule applied to the per-byte covering attribution *)
+Theorem C06_line_rule_bridge : forall evs t,
+  reassembles evs t = true -> chunks_nl_last evs = true ->
+  attr_of_stream evs false = line_first_bytes t (attr_cover (rsegs_of_events evs [] [])) None 0 [].
+Proof. exact CompLinesBridge.lines_bridge. Qed.
+Print Assumptions C06_line_rule_bridge.
+
+(* ConcatSource: each output line is attributed to the first mapped byte of the children's
+   attributions laid back to back *)
+Theorem C06_concat_lines : forall (kids : list (list event * (N * N))) (ts : list text),
+  Forall (fun k => dense (fst k) 0 0 = true) kids ->
+  Forall2 (fun k t => reassembles (fst k) t = true) kids ts ->
+  Forall (fun k => chunks_nl_last (fst k) = true) kids ->
+  let comp := snd (concat_fold false kids (concat_init, [])) in
+  attr_of_stream comp false = line_first_bytes (concat ts) (concat_expected (map fst kids)) None 0 [].
+Proof. exact CompLinesConcat.concat_lines_attr_kids. Qed.
+Print Assumptions C06_concat_lines.
+
+(* ReplaceSource: likewise against the byte-level reference; and every file keeps its content *)
+Theorem C06_replace_lines : forall rs ievs T,
+  Forall (fun r => r_start r <= r_end r) rs ->
+  reassembles ievs T = true -> well_positioned (chunks_of ievs) 1 0 = true ->
+  chunks_nl_last ievs = true -> ReplAttrStream.no_empty_chunks ievs = true -> dense ievs 0 0 = true ->
+  len T + len (concat (map r_content rs)) + 1 < 4294967296 ->
+  attr_of_stream (fst (replace_stream (sort_repls rs) ievs (advance 1 0 T))) false
+  = line_first_bytes (replace_source_text T rs) (replace_reference ievs rs) None 0 [].
+Proof. exact CompLinesReplace.replace_lines_attr. Qed.
+Print Assumptions C06_replace_lines.
+
+Theorem C06_replace_contents : forall sorted ievs gi,
+  contents_preserved (fst (replace_stream sorted ievs gi)) [ievs] = true.
+Proof. exact CompLinesReplace.replace_contents_preserved. Qed.
+Print Assumptions C06_replace_contents.
+
+(* the whole checker - all clauses, both column settings - accepts the model's own observations of
+   every ConcatSource / ReplaceSource over trees over Raw* / Original / SourceMapSource / Concat /
+   Replace, after any warm-up calls *)
+Theorem C06_checker_accepts_model : forall s ws,
+  CompLinesTree.composite s = true -> RStreamTree.rshape s = true -> treeA s = true ->
+  RStreamTree.rsmall s = true -> ReplAttrTree.csmall s = true ->
+  let '(c10, c00, k10, k00) := api_comp s ws in
+  bindings_consistent (flat_map contents_of_events k10) = true ->
+  chk_C06 s (source s) c10 c00 k10 k00 = 0.
+Proof. exact CompLinesTree.C06_tree. Qed.
+Print Assumptions C06_checker_accepts_model.
